@@ -859,6 +859,27 @@ def _dot(a, b, out=None):
         return a * (b[()] if isinstance(b, np.ndarray) else b)
     if isinstance(a, (Sym, builtins.int, builtins.float, np.integer, np.floating)):
         return b * a
+    if isinstance(a, LArr) and a.ndim == 2 and isinstance(b, np.ndarray) and b.ndim == 2 and _is_concrete(a.shape[1]) and builtins.int(a.shape[1]) == b.shape[0]:
+        # (rows x K) lazy array times a concrete-shaped K x M matrix: column j = sum_k a[:, k] * b[k, j]
+        K, M = b.shape
+        B = np.asarray(arrays._plain(b), dtype=object)
+
+        def fn(r, c):
+            cols = []
+            for j in range(M):
+                acc = 0
+                for k in range(K):
+                    if not isinstance(B[k, j], Sym) and B[k, j] == 0:
+                        continue
+                    acc = acc + arrays._num(a.fn(r, k)) * arrays._num(B[k, j])
+                cols.append(acc)
+            if not isinstance(c, Sym):
+                return cols[builtins.int(c)]
+            res = cols[-1]
+            for j in range(M - 2, -1, -1):
+                res = core.ite(core.eq(c, j), cols[j], res)
+            return res
+        return LArr((a.shape[0], M), fn, aid=None, tag=a.tag)
     raise Unsupported("np.dot of lazy arrays with a matrix")
 
 
